@@ -98,3 +98,109 @@ Proof.
   destruct (chk_dup_param f); [discriminate|]. destruct (chk_no_output f); [discriminate|].
   destruct (chk_invoke_outputs f); [discriminate|]. destruct (chk_dup_provider f); [discriminate | reflexivity].
 Qed.
+
+(* ---- and every consumed type of an accepted flow has a source (the second hypothesis of
+   C02_semantics_is_the_generated_code), by the soundness of the provider walk *)
+From CffVerif Require Import ValidateWalk FlowComplete.
+
+Lemma funcs_task_deps ts : forall pc ic t u, In t ts ->
+  (In u (tins t) -> In (TUser u) (flat_map fdeps (funcs_from pc ic ts))) /\
+  (forall pins, tpred t = Some pins -> In u pins -> In (TUser u) (flat_map fdeps (funcs_from pc ic ts))).
+Proof.
+  induction ts as [|a ts IH]; intros pc ic t u Ht; [contradiction|]. cbn [funcs_from].
+  destruct Ht as [->|Ht].
+  - destruct (tpred t) as [pins|] eqn:Ep; cbn [flat_map fdeps]; split.
+    + intros Hu. apply in_or_app. left. apply in_or_app. left. now apply in_map.
+    + intros pins' E Hu. injection E as <-. apply in_or_app. right. apply in_or_app. left. now apply in_map.
+    + intros Hu. apply in_or_app. left. now apply in_map.
+    + intros pins' E. discriminate.
+  - destruct (tpred a) as [pa|]; cbn [flat_map]; split.
+    + intros Hu. apply in_or_app. right. apply in_or_app. right. now apply (IH _ _ t u Ht).
+    + intros pins E Hu. apply in_or_app. right. apply in_or_app. right. now apply (proj2 (IH _ _ t u Ht) pins E).
+    + intros Hu. apply in_or_app. right. now apply (IH _ _ t u Ht).
+    + intros pins E Hu. apply in_or_app. right. now apply (proj2 (IH _ _ t u Ht) pins E).
+Qed.
+
+Lemma user_out_task ts : forall pc ic u, In (TUser u) (flat_map fouts (funcs_from pc ic ts)) -> In u (flat_map ValidateModel.touts ts).
+Proof.
+  intros pc ic u H.
+  assert (Hf : In (TUser u) (filter is_user (flat_map fouts (funcs_from pc ic ts)))) by (apply filter_In; split; [exact H | reflexivity]).
+  rewrite funcs_user_outs in Hf. apply in_map_iff in Hf. destruct Hf as [x [E Hx]]. now injection E as <-.
+Qed.
+
+Theorem accepted_all_provided f : accepts f = true -> all_provided_b (to_fflow f) = true.
+Proof.
+  intros Hacc. pose proof (accepts_wellformed f Hacc) as [Huniq Hprov _ _ _].
+  pose proof (accepted_unique_providers f Hacc) as Hu.
+  assert (Hsrc : forall u, In (TUser u) (consumed f) -> has_source (to_fflow f) u = true).
+  { intros u Hc. specialize (Hprov _ Hc). unfold provided in Hprov. apply in_app_or in Hprov. unfold has_source.
+    destruct Hprov as [Hp|Ho].
+    - apply in_map_iff in Hp. destruct Hp as [x [E Hx]]. injection E as ->.
+      destruct (gprov (to_fflow f) u); [reflexivity|]. cbn [to_fflow gparams].
+      apply existsb_exists. exists u. split; [exact Hx | apply Nat.eqb_refl].
+    - apply user_out_task in Ho. apply in_flat_map in Ho. destruct Ho as (t & Ht & Hut).
+      destruct (In_nth _ _ (nth 0 [] t) Ht) as (k & Hk & Ek).
+      destruct (Hu k u) as [i ->]; [cbn [to_fflow gtasks]; now rewrite map_length| |reflexivity].
+      unfold taskof. cbn [to_fflow gtasks].
+      replace ktask0 with (to_ftask (ValidateModel.Build_task [] [] None false)) by reflexivity.
+      rewrite map_nth. cbn [to_ftask kouts].
+      rewrite (nth_indep _ _ (nth 0 [] t) Hk), Ek. exact Hut. }
+  unfold all_provided_b. apply andb_true_iff. split.
+  - apply forallb_forall. intros k Hk. apply in_seq in Hk. cbn [to_fflow gtasks] in Hk. rewrite map_length in Hk.
+    unfold taskof. cbn [to_fflow gtasks].
+    replace ktask0 with (to_ftask (ValidateModel.Build_task [] [] None false)) by reflexivity.
+    rewrite map_nth. set (t := nth k (ftasks f) _). assert (Ht : In t (ftasks f)) by (apply nth_In; lia).
+    cbn [to_ftask kins kpred]. apply andb_true_iff. split.
+    + apply forallb_forall. intros u Hu'. apply Hsrc. unfold consumed. apply in_or_app. right.
+      now apply (proj1 (funcs_task_deps (ftasks f) 0 0 t u Ht)).
+    + destruct (tpred t) as [pins|] eqn:Ep; [|reflexivity]. apply forallb_forall. intros u Hu'. apply Hsrc.
+      unfold consumed. apply in_or_app. right. now apply (proj2 (funcs_task_deps (ftasks f) 0 0 t u Ht) pins Ep).
+  - apply forallb_forall. intros u Hu'. cbn [to_fflow gresults] in Hu'. apply Hsrc. unfold consumed. apply in_or_app. left. now apply in_map.
+Qed.
+
+(* the same for any decoration of the tasks (FallbackWith, error results, Invoke flags):
+   both hypotheses depend only on parameters, results and the types each task consumes and produces *)
+Definition shape (t : ftask) : list nat * list nat * option (list nat) := (kins t, kouts t, kpred t).
+
+Lemma prov_from_shape ts ts' : map kouts ts = map kouts ts' -> forall k t, prov_from k ts t = prov_from k ts' t.
+Proof.
+  revert ts'. induction ts as [|a ts IH]; intros [|b ts'] H k t; try discriminate; [reflexivity|].
+  cbn in H. injection H as Hab Hr. cbn [prov_from]. rewrite (IH ts' Hr (S k) t), Hab. reflexivity.
+Qed.
+
+Lemma map_shape_kouts ts ts' : map shape ts = map shape ts' -> map kouts ts = map kouts ts'.
+Proof.
+  revert ts'. induction ts as [|a ts IH]; intros [|b ts'] H; try discriminate; [reflexivity|].
+  cbn in H. injection H as _ Ho _ Hr. cbn. now rewrite Ho, (IH ts' Hr).
+Qed.
+
+Lemma taskof_shape g g' k : map shape (gtasks g) = map shape (gtasks g') -> shape (taskof g k) = shape (taskof g' k).
+Proof.
+  intros H. unfold taskof. change (shape (nth k (gtasks g) ktask0)) with (shape (nth k (gtasks g) ktask0)).
+  rewrite <- (map_nth shape (gtasks g) ktask0 k), <- (map_nth shape (gtasks g') ktask0 k), H. reflexivity.
+Qed.
+
+Lemma forallb_ext' {A} (p q : A -> bool) l : (forall x, p x = q x) -> forallb p l = forallb q l.
+Proof. intros H. induction l as [|a l IH]; cbn; [reflexivity | now rewrite H, IH]. Qed.
+
+Theorem accepted_qualifies f g : accepts f = true ->
+  gparams g = fparams f -> gresults g = fresults f -> map shape (gtasks g) = map shape (gtasks (to_fflow f)) ->
+  unique_providers g /\ all_provided_b g = true.
+Proof.
+  intros Hacc Hp Hr Hs.
+  assert (Hk : map kouts (gtasks g) = map kouts (gtasks (to_fflow f))) by now apply map_shape_kouts.
+  assert (Hg : forall t, gprov g t = gprov (to_fflow f) t) by (intros t; unfold gprov; now apply prov_from_shape).
+  assert (Hlen : length (gtasks g) = length (gtasks (to_fflow f))) by (rewrite <- (map_length shape), Hs, map_length; reflexivity).
+  split.
+  - apply (accepted_unique_providers_gen f g Hacc). rewrite Hk. cbn [to_fflow gtasks]. rewrite map_map. reflexivity.
+  - pose proof (accepted_all_provided f Hacc) as Ha. unfold all_provided_b in *.
+    assert (Hsrc : forall t, has_source g t = has_source (to_fflow f) t).
+    { intros t. unfold has_source. rewrite Hg, Hp. reflexivity. }
+    rewrite Hlen, Hr. apply andb_true_iff in Ha. destruct Ha as [Ha1 Ha2]. apply andb_true_iff. split.
+    + apply forallb_forall. intros k Hk'. rewrite forallb_forall in Ha1. specialize (Ha1 k Hk').
+      pose proof (taskof_shape g (to_fflow f) k Hs) as E. unfold shape in E. injection E as E1 E2 E3.
+      rewrite E1, E3. rewrite !(forallb_ext' (has_source g) (has_source (to_fflow f)) _ Hsrc).
+      destruct (kpred (taskof (to_fflow f) k)); [|exact Ha1].
+      rewrite !(forallb_ext' (has_source g) (has_source (to_fflow f)) _ Hsrc). exact Ha1.
+    + cbn [to_fflow gresults] in Ha2. rewrite !(forallb_ext' (has_source g) (has_source (to_fflow f)) _ Hsrc). exact Ha2.
+Qed.
